@@ -74,7 +74,14 @@ func (a *Act) call(st *State, x *ssa.Call, com *ssa.CallCommon) {
 func (a *Act) argVals(com *ssa.CallCommon) []Val {
 	var out []Val
 	for _, arg := range com.Args {
-		out = append(out, a.val(arg))
+		v := a.val(arg)
+		if v.Loc != nil && v.Loc.RootT != nil && len(v.Loc.Path) == 0 {
+			// kept as a location: inlined callees can still read and write the element; contract calls
+			// and dynamic calls receive the opaque reference
+			out = append(out, v)
+			continue
+		}
+		out = append(out, v)
 	}
 	return out
 }
@@ -340,7 +347,7 @@ func (a *Act) appendOp(st *State, com *ssa.CallCommon, pos tokenPos) Term {
 		}
 	}
 	if c, ok := com.Args[1].(*ssa.Const); ok && c.Value == nil {
-		return s // append(s, nil...) 
+		return s // append(s, nil...)
 	}
 	newLen := app("+", app("slen", s), n)
 	inplace := d.Fresh("inplace", "Bool")
@@ -350,43 +357,29 @@ func (a *Act) appendOp(st *State, com *ssa.CallCommon, pos tokenPos) Term {
 	u.Fact(app(">=", ncap, newLen))
 	res := d.Fresh("appended", "Slice")
 	u.Fact(eq(res, ite(inplace, app("mkslice", app("sarr", s), app("soff", s), newLen, app("scap", s)), app("mkslice", nr, "0", newLen, ncap))))
-	dst := func(i Term) Term { // address of element i of the result
-		return app("saddr", res, i)
-	}
 	srcS := func(i Term) Term { return app("saddr", s, i) }
 	srcT := func(i Term) Term { return app("saddr", t, i) }
+	at := func(i Term) Term { return app("saddr", res, i) }
 	for _, lh := range a.elemHeaps(et) {
 		old := st.heap(lh.name, lh.sort)
-		// in-place result
-		var hin Term
-		if constN >= 0 {
-			hin = old
-			for j := int64(0); j < constN; j++ {
-				hin = store(hin, lh.addr(app("saddr", s, app("+", app("slen", s), intLit(j)))), sel(old, lh.addr(srcT(intLit(j)))))
-			}
-		} else {
-			hin = d.Fresh(lh.name+"_inpl", lh.sort)
-			u.Fact(fmt.Sprintf("(forall ((j Int)) (! (=> (and (<= 0 j) (< j %s)) (= (select %s %s) (select %s %s))) :pattern ((select %s %s))))",
-				n, hin, lh.addr(dst(app("+", app("slen", s), "j"))), old, lh.addr(srcT("j")), hin, lh.addr(dst(app("+", app("slen", s), "j")))))
-			u.Fact(fmt.Sprintf("(forall ((r Ref)) (! (=> (not (= (rid r) (rid (sarr %s)))) (= (select %s r) (select %s r))) :pattern ((select %s r))))", s, hin, old, hin))
-			u.Fact(fmt.Sprintf("(forall ((k Int)) (! (=> (not (and (<= (+ (soff %s) (slen %s)) k) (< k (+ (soff %s) (slen %s) %s)))) (= (select %s %s) (select %s %s))) :pattern ((select %s %s))))",
-				s, s, s, s, n, hin, lh.addr(app("elem", app("sarr", s), "k")), old, lh.addr(app("elem", app("sarr", s), "k")), hin, lh.addr(app("elem", app("sarr", s), "k"))))
-		}
-		// reallocated result
-		hre := d.Fresh(lh.name+"_real", lh.sort)
-		u.Fact(fmt.Sprintf("(forall ((r Ref)) (! (=> (not (= (rid r) (rid %s))) (= (select %s r) (select %s r))) :pattern ((select %s r))))", nr, hre, old, hre))
-		u.Fact(fmt.Sprintf("(forall ((i Int)) (! (=> (and (<= 0 i) (< i (slen %s))) (= (select %s %s) (select %s %s))) :pattern ((select %s %s))))",
-			s, hre, lh.addr(app("elem", nr, "i")), old, lh.addr(srcS("i")), hre, lh.addr(app("elem", nr, "i"))))
-		if constN >= 0 {
-			for j := int64(0); j < constN; j++ {
-				u.Fact(eq(sel(hre, lh.addr(app("elem", nr, app("+", app("slen", s), intLit(j))))), sel(old, lh.addr(srcT(intLit(j))))))
-			}
-		} else {
-			u.Fact(fmt.Sprintf("(forall ((j Int)) (! (=> (and (<= 0 j) (< j %s)) (= (select %s %s) (select %s %s))) :pattern ((select %s %s))))",
-				n, hre, lh.addr(app("elem", nr, app("+", app("slen", s), "j"))), old, lh.addr(srcT("j")), hre, lh.addr(app("elem", nr, app("+", app("slen", s), "j")))))
-		}
 		nh := d.Fresh(lh.name, lh.sort)
-		u.Fact(eq(nh, ite(inplace, hin, hre)))
+		// the elements of s are (still) the first elements of the result
+		u.Fact(fmt.Sprintf("(forall ((k Int)) (! (=> (and (<= 0 k) (< k (slen %s))) (= (select %s %s) (select %s %s))) :pattern ((select %s %s))))",
+			s, nh, at("k"), old, srcS("k"), nh, at("k")))
+		// the appended elements follow
+		if constN >= 0 {
+			for j := int64(0); j < constN; j++ {
+				u.Fact(eq(sel(nh, at(app("+", app("slen", s), intLit(j)))), sel(old, srcT(intLit(j)))))
+			}
+		} else {
+			u.Fact(fmt.Sprintf("(forall ((k Int)) (! (=> (and (<= (slen %s) k) (< k (slen %s))) (= (select %s %s) (select %s %s))) :pattern ((select %s %s))))",
+				s, res, nh, at("k"), old, srcT(app("-", "k", app("slen", s))), nh, at("k")))
+		}
+		// frame: in place only the appended range of the backing array changes; otherwise only the new array
+		u.Fact(implies(inplace, fmt.Sprintf("(forall ((r Ref)) (! (=> (not (= (rid r) (rid (sarr %s)))) (= (select %s r) (select %s r))) :pattern ((select %s r))))", s, nh, old, nh)))
+		u.Fact(implies(inplace, fmt.Sprintf("(forall ((k Int)) (! (=> (not (and (<= (+ (soff %s) (slen %s)) k) (< k (+ (soff %s) (slen %s) %s)))) (= (select %s (elem (sarr %s) k)) (select %s (elem (sarr %s) k)))) :pattern ((select %s (elem (sarr %s) k)))))",
+			s, s, s, s, n, nh, s, old, s, nh, s)))
+		u.Fact(implies(not(inplace), fmt.Sprintf("(forall ((r Ref)) (! (=> (not (= (rid r) (rid %s))) (= (select %s r) (select %s r))) :pattern ((select %s r))))", nr, nh, old, nh)))
 		st.setHeap(lh.name, lh.sort, nh)
 	}
 	return res
